@@ -27,9 +27,10 @@ struct AnimSpec {
   std::vector<Track> tracks;
   int32_t enc_speed = -1, dec_speed = -1;
   int32_t force_pred = -100;
+  int32_t delete_track = -1;  // index of a track removed again (PointCloud::DeleteAttribute) before encoding: ids stay sparse
   template <class A>
   void io(A &a) {
-    a(frames); a(timestamps); a(ts_position); a(tracks); a(enc_speed); a(dec_speed); a(force_pred);
+    a(frames); a(timestamps); a(ts_position); a(tracks); a(enc_speed); a(dec_speed); a(force_pred); a(delete_track);
   }
 };
 
@@ -68,11 +69,19 @@ static std::string run_spec(const AnimSpec &s, bool *nontriv) {
   }
   if (an.SetTimestamps(s.timestamps)) return "SetTimestamps accepted a second timestamp attribute";
   if (an.num_frames() != s.frames) return "num_frames before encoding is wrong";
+  std::vector<char> alive(s.tracks.size(), 1);
+  if (s.delete_track >= 0 && s.delete_track < static_cast<int>(s.tracks.size())) {
+    an.DeleteAttribute(an.GetAttributeIdByUniqueId(ids[s.delete_track]));
+    alive[s.delete_track] = 0;
+    count("track_deleted_before_encoding");
+  }
   EncoderOptions opt = EncoderOptions::CreateDefaultOptions();
   if (s.enc_speed >= 0) opt.SetSpeed(s.enc_speed, s.dec_speed);
   for (size_t i = 0; i < s.tracks.size(); ++i) {
-    if (s.tracks[i].qbits > 0) opt.SetAttributeInt(ids[i], "quantization_bits", s.tracks[i].qbits);
-    if (s.force_pred != -100) opt.SetAttributeInt(ids[i], "prediction_scheme", s.force_pred);
+    if (!alive[i]) continue;
+    const int att_index = an.GetAttributeIdByUniqueId(ids[i]);  // encoder options are keyed by attribute index
+    if (s.tracks[i].qbits > 0) opt.SetAttributeInt(att_index, "quantization_bits", s.tracks[i].qbits);
+    if (s.force_pred != -100) opt.SetAttributeInt(att_index, "prediction_scheme", s.force_pred);
   }
   KeyframeAnimationEncoder enc;
   EncoderBuffer eb;
@@ -92,7 +101,9 @@ static std::string run_spec(const AnimSpec &s, bool *nontriv) {
   st = dec.Decode(dopt, &db, out.get());
   if (!st.ok()) return "encode reported success but decoding fails: " + st.error_msg_string();
   if (out->num_frames() != s.frames) return "decoded " + std::to_string(out->num_frames()) + " frames, " + std::to_string(s.frames) + " encoded";
-  if (out->num_animations() != static_cast<int>(s.tracks.size())) return "num_animations differs";
+  int nalive = 0;
+  for (char a : alive) nalive += a;
+  if (out->num_animations() != nalive) return "num_animations differs";
   const PointAttribute *ts = out->timestamps();
   if (!ts || ts->data_type() != DT_FLOAT32 || ts->num_components() != 1) return "timestamp attribute missing or changed";
   for (int f = 0; f < s.frames; ++f) {
@@ -102,6 +113,10 @@ static std::string run_spec(const AnimSpec &s, bool *nontriv) {
   }
   for (size_t i = 0; i < s.tracks.size(); ++i) {
     const Track &t = s.tracks[i];
+    if (!alive[i]) {
+      if (out->keyframes(ids[i]) != nullptr) return "a deleted track is present after decoding";
+      continue;
+    }
     const PointAttribute *k = out->keyframes(ids[i]);
     if (!k) return "track not retrievable under the id it was added with (" + std::to_string(ids[i]) + ")";
     if (k->data_type() != t.dtype || k->num_components() != t.ncomp) return "track descriptor changed";
@@ -210,6 +225,7 @@ static AnimSpec gen_spec(bool thorough) {
     s.dec_speed = P(60) ? s.enc_speed : R(0, 10);
   }
   if (P(20)) s.force_pred = pick({-2, 0, 1, 4});
+  if (nt >= 2 && P(25)) s.delete_track = R(0, nt - 1);
   return s;
 }
 
